@@ -108,8 +108,7 @@ Proof.
 Qed.
 
 (* ------------------------------------------------------------------ accepted parameters *)
-(* on even divs whatever the 1-D form accepts the 2-D form accepts; the implication fails on every odd divs >= 5
-   (Findings/C12_accept.v) *)
+(* the even-divs special case (it already held before 8ae06cd; the general statement is [accept_1d_2d] below) *)
 Theorem accept_1d_2d_even : forall d, Z.even d = true -> simpson_accepts d = true -> simpson2d_accepts d = true.
 Proof.
   intros d He Ha. unfold simpson_accepts, simpson2d_accepts in *. cbv zeta in *. bool_facts. bool_goal; zmod_lia.
@@ -171,3 +170,10 @@ Lemma dispatch_simpson : forall (f : R -> C) (g : R -> R -> C) (a b c d eps : R)
   integrate_AdaptiveSimpson Rops f a b eps depth = simpson_adaptive Rops f a b eps depth /\
   integrate2d_AdaptiveSimpson Rops g a b c d eps depth = simpson_adaptive_2d Rops g a b c d eps depth.
 Proof. intros. repeat split; reflexivity. Qed.
+
+(* ------------------------------------------------------------------ accepted parameters, full strength (repaired tree) *)
+Lemma accept_from4 : forall d, (4 <= d)%Z -> simpson_accepts d = true /\ simpson2d_accepts d = true.
+Proof. intros d H. unfold simpson_accepts, simpson2d_accepts. cbv zeta. split; bool_goal; zmod_lia. Qed.
+
+Lemma accept_1d_2d : forall d, simpson_accepts d = true -> simpson2d_accepts d = true.
+Proof. intros d Ha. unfold simpson_accepts, simpson2d_accepts in *. cbv zeta in *. bool_facts. bool_goal; zmod_lia. Qed.
